@@ -156,6 +156,12 @@ DEFECTS = {
         _sp(['env U = "@[UNDEF_S]@"']),
         _sp(['cd @[UNDEF_P]@/sub']),
         _sp(['dir ud = { file a.txt = "@[UNDEF_S]@" }'], tag='nested'),
+        # the defective reference is NOT the first symbol usage of its instruction
+        _sp(['file u.txt = "@[OK_S]@ @[UNDEF_S]@"'], support=['def string OK_S = ok'], tag='second_usage'),
+        _sp(['run % echo @[OK_S]@ @[OK_S]@ @[UNDEF_L]@'], support=['def string OK_S = ok'], tag='second_usage'),
+        _sp(['copy -rel OK_P ex.txt @[UNDEF_P]@/dst'], support=['def path OK_P = -rel-home .'], tag='second_usage'),
+        _sp(['file u.txt = "@[OK_S]@" -transformed-by ( OK_TT | UNDEF_TT )'],
+            support=['def string OK_S = ok', 'def text-transformer OK_TT = identity'], tag='second_usage'),
         _sp(['file u.txt = "a" -transformed-by ( identity | UNDEF_TT )'], tag='nested'),
         _sp(['def text-matcher D2 = ( is-empty || ! UNDEF_TM )'], tag='nested'),
         _sp(['exit-code UNDEF_IM'], phases=('assert',)),
@@ -171,6 +177,8 @@ DEFECTS = {
         _sp(['file l.txt = "@[LATER_S]@"'], later_def='def string LATER_S = x'),
         _sp(['copy -rel LATER_P ex.txt'], later_def='def path LATER_P = -rel-home .'),
         _sp(['run @ LATER_PGM'], later_def='def program LATER_PGM = % true'),
+        _sp(['file l.txt = "@[OK_S]@ @[LATER_S]@"'], support=['def string OK_S = ok'], later_def='def string LATER_S = x',
+            tag='second_usage'),
         _sp([A + ' @[LATER_S]@'], phases=('act',), later_def='def string LATER_S = x'),
     ],
     # -- 5. wrong symbol type ---------------------------------------------------------------------------------
@@ -182,6 +190,9 @@ DEFECTS = {
         _sp(['def text-matcher WD = WT_S'], support=[_WT['S']]),
         _sp(['run % echo @[WT_TT]@'], support=[_WT['TT']]),
         _sp(['file w.txt = "a" -transformed-by ( identity | WT_P )'], support=[_WT['P']], tag='nested'),
+        _sp(['file w.txt = "@[OK_S]@" -transformed-by WT_P'], support=['def string OK_S = ok', _WT['P']],
+            tag='second_usage'),
+        _sp(['run % echo @[OK_S]@ @[WT_TT]@'], support=['def string OK_S = ok', _WT['TT']], tag='second_usage'),
         _sp(['exit-code WT_LM'], phases=('assert',), support=[_WT['LM']]),
         _sp(['stdout WT_S'], phases=('assert',), support=[_WT['S']]),
         _sp(['@ WT_S'], phases=('act',), support=[_WT['S']]),
@@ -196,6 +207,11 @@ DEFECTS = {
         _sp(['copy ex.txt -rel IR_H y'], support=[_IR['H']]),
         _sp(['file -rel IR_H2 f.txt'], support=[_IR['H'], 'def path IR_H2 = -rel IR_H e'], tag='two_step'),
         _sp(['file -rel IR_HERE f.txt'], support=[_IR['HERE']]),
+        _sp(['copy -rel OK_P ex.txt -rel IR_H y'], support=['def path OK_P = -rel-home .', _IR['H']], tag='second_usage'),
+        _sp(['file @[IR_H]@/f.txt = "@[OK_S]@"'], support=['def string OK_S = ok', _IR['H']]),
+        # the same path symbol used twice in one instruction: legal as source, illegal as destination
+        _sp(['copy @[IR_H]@/ex.txt @[IR_H]@/generated.txt'], support=['def path IR_H = -rel-home .'],
+            tag='same_symbol_twice'),
         _sp(['dir @[IR_R]@/sub'], support=[_IR['R']]),
         _sp(['-rel IR_R x'], phases=('act',), support=[_IR['R']]),
     ],
@@ -214,6 +230,14 @@ DEFECTS = {
         _sp(['env MV = -contents-of missing.txt']),
         _sp(['file m.txt = -contents-of adir']),
         _sp(['copy -rel MH missing.txt'], support=['def path MH = -rel-home .']),
+        # a missing file named by an ABSOLUTE path (literal, -rel-here symbol, string symbol holding an absolute path)
+        _sp(['copy /nonexistent-c03-dir/missing.txt'], tag='absolute'),
+        _sp(['file m.txt = -contents-of /nonexistent-c03-dir/missing.txt'], tag='absolute'),
+        _sp(['run /nonexistent-c03-dir/missing-program'], tag='absolute'),
+        _sp(['run % echo -existing-file /nonexistent-c03-dir/missing.txt'], tag='absolute'),
+        _sp(['copy -rel MHERE missing.txt'], support=['def path MHERE = -rel-here .'], tag='absolute'),
+        _sp(['copy @[MABS]@/missing.txt'], support=['def string MABS = /nonexistent-c03-dir'], tag='absolute'),
+        _sp(['/nonexistent-c03-dir/missing-program a b'], phases=('act',), tag='absolute'),
         _sp(['dir md = { file a.txt = -contents-of missing.txt }'], tag='nested'),
         _sp(['def text-source MTS = -contents-of missing.txt', 'file m.txt = @[MTS]@'], tag='def_ref'),
         _sp(['def program MPG = missing-program', 'run @ MPG'], tag='def_ref'),
